@@ -105,4 +105,18 @@ def collisions (L : List (Nat × Nat)) (d : Nat) : List ((Nat × Nat × Nat) × 
   es.flatMap (fun a => es.filterMap (fun b =>
     if a.2.2 = b.2.2 ∧ a.1 * 4096 + a.2.1 < b.1 * 4096 + b.2.1 then some (a, b) else none))
 
+/-! ## All four streets in one key space, minus the three known preflop pairs -/
+/-- the preflop entries `(0; 8, 40)`, `(0; 16, 48)` (`d = 32`) and `(0; 27, 91)` (`d = 64`) -/
+def excepted (d : Nat) (e : Nat × Nat × Nat) : Bool :=
+  e.1 == 0 && ((d == 32 && (e.2.1 == 8 || e.2.1 == 16)) || (d == 64 && e.2.1 == 27))
+def entries4x (d : Nat) : List (Nat × Nat × Nat) := (entriesOf fourLayers d).filter (fun e => !excepted d e)
+def chunkOK4 (lo n : Nat) : Bool := (List.range n).all (fun t => rdx 44 (entries4x (lo + t)))
+theorem chunkOK4_spec (lo n d : Nat) (h : chunkOK4 lo n = true) (h1 : lo ≤ d) (h2 : d < lo + n) :
+    rdx 44 (entries4x d) = true := by
+  unfold chunkOK4 at h
+  rw [List.all_eq_true] at h
+  have := h (d - lo) (List.mem_range.mpr (by omega))
+  have e : lo + (d - lo) = d := by omega
+  rwa [e] at this
+
 end RP.Codec
